@@ -291,12 +291,22 @@ def check_isolation(ck, exe, mods, ncases, maxenum, nthreads, nshards, variant="
           "frames": 0, "silent_cases": 0}
     for (rc, out, err), sh in zip(results, shards):
         cases = split_cases(out)
-        if rc != 0:
+        if "ThreadSanitizer" in err:
+            # TSan reports do not stop the run (exit code 66 at the end): one violation per racing libxmp function
+            for blk in re.split(r"(?=WARNING: ThreadSanitizer)", err):
+                m = re.match(r"WARNING: ThreadSanitizer: ([\w -]+?) \(pid", blk)
+                if not m:
+                    continue
+                kind = m.group(1).strip().replace(" ", "-")
+                fr = re.findall(r"#\d+ (\w+) (\S+?):\d+", blk)
+                fn = [f for f, path in fr if "/src/" in path and "/harness/" not in path]
+                st["tsan_reports"] = st.get("tsan_reports", 0) + 1
+                ck.violation("tsan:%s@%s" % (kind, fn[0] if fn else "?"),
+                             {"harness": "c06_isolation", "variant": variant, "argv": sh[1][:4], "modules": sh[1][4:],
+                              "report": blk[:3500]},
+                             "ThreadSanitizer: %s in %s while other threads drive other contexts" % (kind, fn[0] if fn else "?"))
+        elif rc != 0:
             sig = vlib.sanitizer_signature(err)
-            if "ThreadSanitizer" in err:
-                m = re.search(r"WARNING: ThreadSanitizer: ([\w -]+)", err)
-                loc = re.findall(r"#\d+ (\w+) [^\n]*/src/", err)
-                sig = "tsan:%s@%s" % ((m.group(1).strip().replace(" ", "-") if m else "report"), loc[0] if loc else "?")
             ck.violation("harness-abort:" + sig,
                          {"harness": "c06_isolation", "variant": variant, "argv": sh[1][:4], "modules": sh[1][4:], "stderr": err[-4000:],
                           "script": replay_text_iso(cases[-1], None, nthreads) if cases else None},
